@@ -987,7 +987,8 @@ fn gen_case(r: &mut Rng, rec: &mut Recorder, big: bool) -> Vec<String> {
         let Some(v) = gen_val(r, &d, &Ty::Struct(sname)) else {
             // uninhabited (contains `never`): decoding anything must fail
             rec.count("gen:uninhabited");
-            lines.push(de_line(sname, &r.bytes(r.below(12) as usize)));
+            let k = r.below(12) as usize;
+            lines.push(de_line(sname, &r.bytes(k)));
             continue;
         };
         rec.count("gen:value");
@@ -1012,7 +1013,8 @@ fn gen_case(r: &mut Rng, rec: &mut Recorder, big: bool) -> Vec<String> {
         for _ in 0..2 {
             rec.count("gen:extension");
             let mut e = enc.clone();
-            e.extend(r.bytes(r.range(1, 4) as usize));
+            let k = r.range(1, 4) as usize;
+            e.extend(r.bytes(k));
             lines.push(de_line(sname, &e));
         }
         // targeted mutations at the marked positions
@@ -1179,7 +1181,8 @@ fn gen_dangling_case(r: &mut Rng) -> Vec<String> {
     let mut lines = vec![defs_line(&d)];
     for n in [1u32, 2, 3] {
         for _ in 0..4 {
-            lines.push(de_line(n, &r.bytes(r.below(5) as usize)));
+            let k = r.below(5) as usize;
+            lines.push(de_line(n, &r.bytes(k)));
         }
         lines.push(de_line(n, &[1, 0]));
     }
@@ -1301,7 +1304,7 @@ fn main() {
     }
     let mut rng = Rng::new(args.seed);
     let big = args.thorough() || args.search;
-    let cases = args.budget(250, 6000);
+    let cases = args.budget(1200, 15000);
     for i in 0..cases {
         let lines = if i % 50 == 49 { gen_dangling_case(&mut rng) } else { gen_case(&mut rng, &mut rec, big) };
         rec.begin_case();
